@@ -331,10 +331,12 @@ def build_doc(m):
         if struct.unpack_from("<I", w, 0x0E)[0] == 0:
             struct.pack_into("<I", w, 0x0E, 52 if not m.get("obfuscated") else 0x1234ABCD)
     struct.pack_into("<H", w, 0x0A, flags)
+    if m.get("magic6"):
+        struct.pack_into("<H", w, 0, 0xA5DC)        # the Word 6/95 FIB identifier, which the reader accepts as well
     streams["WordDocument"] = bytes(w)
     raw = ole2.write_cfb(streams, root_clsid=clsid)
     truth = "encrypted" if m["encrypted"] else "plain"
-    nontrivial = bool(m["extra_flags"]) or bool(m.get("obfuscated")) or m["base"] != "gen"
+    nontrivial = bool(m["extra_flags"]) or bool(m.get("obfuscated")) or m["base"] != "gen" or bool(m.get("magic6"))
     return raw, "doc", truth, nontrivial
 
 
@@ -553,7 +555,7 @@ def _cases():
                                  "filepass_at": st.one_of(st.none(), st.integers(0, 29)), "stream": st.sampled_from(["Workbook", "Workbook", "Book"]),
                                  "decoys": st.lists(st.sampled_from(["Workbook2", "FILEPASS", "Ctls"]), unique=True, max_size=2)})
     bits = st.lists(st.sampled_from([0x0001, 0x0002, 0x0008, 0x0010, 0x0400, 0x0800, 0x2000, 0x4000]), unique=True, max_size=3).map(lambda b: sum(b))
-    doc = st.fixed_dictionaries({"mech": st.just("doc"), "base": st.one_of(st.just("gen"), st.integers(0, 1)), "encrypted": st.booleans(), "obfuscated": st.booleans(),
+    doc = st.fixed_dictionaries({"mech": st.just("doc"), "base": st.one_of(st.just("gen"), st.integers(0, 1)), "encrypted": st.booleans(), "obfuscated": st.booleans(), "magic6": st.sampled_from([False, False, True]),
                                  "extra_flags": bits, "paragraphs": st.lists(_tok().map(lambda t: f"paragraph {t} with enough text to be found by the reader, encrypted or not"), min_size=1, max_size=3)})
     ppt = st.fixed_dictionaries({"mech": st.just("ppt"), "slides": st.lists(st.tuples(_tok(), _tok()).map(list), min_size=1, max_size=3), "marker": st.booleans(), "summary": st.booleans(),
                                  "props": st.booleans(), "decoys": st.lists(st.sampled_from(["EncryptedSummaryX", "Encryption", "Pictures2"]), unique=True, max_size=2)}
